@@ -46,6 +46,9 @@ func genC10(t *rapid.T) c10Scenario {
 		fan.MinPwm, fan.MaxPwm = ip(mn), ip(mx)
 		fan.NoEnable = rapid.IntRange(0, 5).Draw(t, "noEnable") == 0
 	}
+	if kind == "file" {
+		fan.TildeRpm = rapid.IntRange(0, 2).Draw(t, "tildeRpm") == 0
+	}
 	thetaKind := rapid.IntRange(0, 2).Draw(t, "thetaKind")
 	theta := 0
 	switch thetaKind {
@@ -232,6 +235,9 @@ func runC10(t *testing.T, sc c10Scenario) verdict {
 		}
 	}
 	labels := []string{"kind:" + sc.Loop.Fan.Kind}
+	if sc.Loop.Fan.TildeRpm {
+		labels = append(labels, "rpm-path-relative-to-home")
+	}
 	switch {
 	case sc.Theta == 256:
 		labels = append(labels, "never-spins")
